@@ -1,4 +1,7 @@
 import ZCV.Lemmas.Misc
+import ZCV.Lemmas.SlotsLoad
+import ZCV.Lemmas.SlotsElab
+import ZCV.Lemmas.SlotsEx
 namespace ZCV.Props.C12
 open ZCV ZCV.Cfg
 
@@ -14,5 +17,439 @@ theorem C12_abstract_itself_refused (st : LS) (ty : Str) (nm : Option Str) (p : 
     (hs : st.stack = p :: below) (n : Str) (subs : List Str) (h : st.schema.gettype ty = some (.abstract_ n subs)) :
     ∃ e, lsStart st ty nm = .error (.cfg e) :=
   lsStart_abstract_refused st ty nm p below hs n subs h
+
+/-! ### which headers an abstract slot admits -/
+
+/-- **An abstract slot admits exactly the implementers.**  In a well-formed schema (`schemaOK`), let `t` be the schema
+    itself or one of its concrete section types, and `<ty name>` a header whose type `ty` is a known concrete type.
+    `getsectioninfo` hands the header to a slot `si` of ABSTRACT type if and only if
+    * `si` belongs to the first child of `t`, in schema order, that claims the header (a fixed-name child claims the
+      headers carrying its name; a `*`/`+` slot claims the headers of its own type or of a type implementing its type), and
+    * `ty` is among the implementers the schema records for `si`'s type at this moment
+      (`Conf.implementers`: the static ones plus those registered by the `%import` lines read so far). -/
+theorem C12_slot_admits_iff (s : Schema) (hs : Conf.schemaOK s = true) (t : SType)
+    (ht : t = s.top ∨ ∃ pt, s.gettype pt = some (.concrete t))
+    (ty : Str) (tt : SType) (hty : s.gettype ty = some (.concrete tt)) (name : Option Str) (si : SectInfo) :
+    (getsectioninfo s t ty name = .ok si ∧ isAbstract s si.ty = true) ↔
+      (isAbstract s si.ty = true ∧
+        ∃ c, t.children.find? (Conf.claims s ty name) = some c ∧ c.2 = .sect si ∧ ty ∈ Conf.implementers s si.ty) := by
+  have hOK := stypeOK_of_schemaOK s hs t ht
+  have hconc := isAbstract_concrete s ty tt hty
+  constructor
+  · intro ⟨h, ha⟩
+    exact ⟨ha, (slot_admits_iff s t hOK ty name si hconc ha).mp h⟩
+  · intro ⟨ha, h⟩
+    exact ⟨(slot_admits_iff s t hOK ty name si hconc ha).mpr h, ha⟩
+
+/-- the same for any container type that is structurally well-formed (`stypeOK`), without the rest of the schema -/
+theorem C12_slot_admits_iff_stype (s : Schema) (t : SType) (hOK : Conf.stypeOK s t = true) (ty : Str) (name : Option Str)
+    (si : SectInfo) (hconc : isAbstract s ty = false) (ha : isAbstract s si.ty = true) :
+    getsectioninfo s t ty name = .ok si ↔
+      ∃ c, t.children.find? (Conf.claims s ty name) = some c ∧ c.2 = .sect si ∧ ty ∈ Conf.implementers s si.ty :=
+  slot_admits_iff s t hOK ty name si hconc ha
+
+/-- only-if half, as the property words it: whatever slot of abstract type takes the header, the header's type is one
+    of that abstract type's implementers, and the slot is a child of the container -/
+theorem C12_admitted_is_implementer (s : Schema) (hs : Conf.schemaOK s = true) (t : SType)
+    (ht : t = s.top ∨ ∃ pt, s.gettype pt = some (.concrete t))
+    (ty : Str) (tt : SType) (hty : s.gettype ty = some (.concrete tt)) (name : Option Str) (si : SectInfo)
+    (h : getsectioninfo s t ty name = .ok si) (ha : isAbstract s si.ty = true) :
+    ty ∈ Conf.implementers s si.ty ∧ ∃ key, (key, Info.sect si) ∈ t.children := by
+  obtain ⟨_, c, hf, hc, hm⟩ := (C12_slot_admits_iff s hs t ht ty tt hty name si).mp ⟨h, ha⟩
+  refine ⟨hm, c.1, ?_⟩
+  have := List.mem_of_find?_eq_some hf
+  rw [← hc]
+  exact this
+
+/-- **Unnamed (`*` / `+`) slot of abstract type, exactly.**  If no child before the slot claims the header, the slot takes
+    the header when the header's type is a recorded implementer of the slot's type, and otherwise PASSES IT ON to the
+    children after it (a type that does not implement — the abstract type's extenders included — is not admitted here). -/
+theorem C12_unnamed_slot_exact (s : Schema) (t : SType) (hOK : Conf.stypeOK s t = true) (ty : Str) (name : Option Str)
+    (si : SectInfo) (pre post : List (Option Str × Info)) (hch : t.children = pre ++ (none, .sect si) :: post)
+    (hpre : ∀ c ∈ pre, Conf.claims s ty name c = false)
+    (hconc : isAbstract s ty = false) (ha : isAbstract s si.ty = true) :
+    getsectioninfo s t ty name =
+      if isSubtype s si.ty ty then .ok si else getsectioninfo.go s ty name post := by
+  have hsh : ∀ c ∈ pre, Conf.keyShapeOK c := fun c hc => stypeOK_shape s t hOK c (by rw [hch]; exact List.mem_append_left _ hc)
+  unfold getsectioninfo
+  rw [hch, go_skip s ty name pre _ hsh hpre, go_at_unnamed_abstract s ty name si post hconc ha]
+
+/-- the converse half of the property for such a slot: an implementer is admitted -/
+theorem C12_unnamed_slot_admits_implementer (s : Schema) (t : SType) (hOK : Conf.stypeOK s t = true) (ty : Str)
+    (name : Option Str) (si : SectInfo) (pre post : List (Option Str × Info))
+    (hch : t.children = pre ++ (none, .sect si) :: post) (hpre : ∀ c ∈ pre, Conf.claims s ty name c = false)
+    (hconc : isAbstract s ty = false) (hsub : isSubtype s si.ty ty = true) :
+    getsectioninfo s t ty name = .ok si := by
+  rw [C12_unnamed_slot_exact s t hOK ty name si pre post hch hpre hconc (isAbstract_of_isSubtype s _ _ hsub), hsub, if_pos rfl]
+
+/-- **Fixed-name slot of abstract type, exactly.**  A child stored under the key `k` whose section type is abstract, and a
+    header `<ty k>` that no `*`/`+` slot before it claims (other fixed names cannot: keys are distinct): the header is
+    admitted if `ty` is a recorded implementer of the abstract type and REFUSED otherwise — nothing after the child is
+    consulted.  So a type that merely extends an implementer, and declares nothing itself, is refused under that name. -/
+theorem C12_fixed_name_slot_exact (s : Schema) (t : SType) (hOK : Conf.stypeOK s t = true) (ty k : Str)
+    (si : SectInfo) (pre post : List (Option Str × Info)) (hch : t.children = pre ++ (some k, .sect si) :: post)
+    (hpre : ∀ c ∈ pre, c.1 = none → Conf.claims s ty (some k) c = false)
+    (ha : isAbstract s si.ty = true) :
+    getsectioninfo s t ty (some k) =
+      if isSubtype s si.ty ty then .ok si else .error (plainErr "section type not allowed for name") := by
+  have hmem : ∀ c ∈ pre, c ∈ t.children := fun c hc => by rw [hch]; exact List.mem_append_left _ hc
+  have hsh : ∀ c ∈ pre, Conf.keyShapeOK c := fun c hc => stypeOK_shape s t hOK c (hmem c hc)
+  have hk : k ≠ [] :=
+    (stypeOK_shape s t hOK (some k, .sect si) (by rw [hch]; exact List.mem_append_right _ List.mem_cons_self)).1 k rfl
+  have hpre' : ∀ c ∈ pre, Conf.claims s ty (some k) c = false := by
+    intro c hc
+    cases hck : c.1 with
+    | none => exact hpre c hc hck
+    | some k' => exact keyed_before_not_claim s t hOK ty k pre post _ hch c hc k' hck
+  unfold getsectioninfo
+  rw [hch, go_skip s ty (some k) pre _ hsh hpre', go_at_named_abstract s ty k si post hk ha]
+
+/-- admitted under the fixed name iff implementer -/
+theorem C12_fixed_name_slot_admits_iff (s : Schema) (t : SType) (hOK : Conf.stypeOK s t = true) (ty k : Str)
+    (si : SectInfo) (pre post : List (Option Str × Info)) (hch : t.children = pre ++ (some k, .sect si) :: post)
+    (hpre : ∀ c ∈ pre, c.1 = none → Conf.claims s ty (some k) c = false)
+    (ha : isAbstract s si.ty = true) :
+    (∃ si', getsectioninfo s t ty (some k) = .ok si') ↔ ty ∈ Conf.implementers s si.ty := by
+  rw [C12_fixed_name_slot_exact s t hOK ty k si pre post hch hpre ha, ← isSubtype_iff_mem]
+  cases isSubtype s si.ty ty <;> simp
+
+/-! ### … and what the loader does with the answer -/
+
+/-- **The header of an implementer opens a section.**  The loader is inside a section whose type has a `*`/`+` slot of
+    abstract type; the header `<ty nm>` names a concrete type of the load's CURRENT schema, spelled as the schema spells
+    it (the parser lower-cases headers), which is a recorded implementer; no earlier child claims the header and the
+    slot's name rule admits `nm`.  Then `startSection` succeeds and pushes a fresh matcher for `ty`. -/
+theorem C12_implementer_header_admitted (st : LS) (ty : Str) (nm : Option Str) (parent : Matcher) (below : List Matcher)
+    (tt : SType) (si : SectInfo) (pre post : List (Option Str × Info))
+    (hs : st.stack = parent :: below) (hb : parent.bag = none)
+    (hg : st.schema.gettype ty = some (.concrete tt)) (hcanon : tt.name = some ty)
+    (hOK : Conf.stypeOK st.schema parent.ty = true)
+    (hch : parent.ty.children = pre ++ (none, .sect si) :: post)
+    (hpre : ∀ c ∈ pre, Conf.claims st.schema ty nm c = false)
+    (hsub : isSubtype st.schema si.ty ty = true)
+    (hname : isAllowedName si nm = true) (hun : (nm.isSome || allowUnnamed si) = true) :
+    lsStart st ty nm = .ok { st with stack := newMatcher tt nm none :: parent :: below } :=
+  lsStart_admitted_unnamed st ty nm parent below tt si pre post hs hb hg hcanon hch
+    (fun c hc => stypeOK_shape _ _ hOK c (by rw [hch]; exact List.mem_append_left _ hc)) hpre hsub hname hun
+
+/-- the same under a fixed name -/
+theorem C12_implementer_header_admitted_fixed_name (st : LS) (ty k : Str) (parent : Matcher) (below : List Matcher)
+    (tt : SType) (si : SectInfo) (pre post : List (Option Str × Info))
+    (hs : st.stack = parent :: below) (hb : parent.bag = none)
+    (hg : st.schema.gettype ty = some (.concrete tt)) (hcanon : tt.name = some ty)
+    (hOK : Conf.stypeOK st.schema parent.ty = true)
+    (hch : parent.ty.children = pre ++ (some k, .sect si) :: post)
+    (hpre : ∀ c ∈ pre, Conf.claims st.schema ty (some k) c = false)
+    (hsub : isSubtype st.schema si.ty ty = true) (hname : isAllowedName si (some k) = true) :
+    lsStart st ty (some k) = .ok { st with stack := newMatcher tt (some k) none :: parent :: below } :=
+  lsStart_admitted_named st ty k parent below tt si pre post hs hb hg hcanon hch
+    ((stypeOK_shape _ _ hOK (some k, .sect si) (by rw [hch]; exact List.mem_append_right _ List.mem_cons_self)).1 k rfl)
+    (fun c hc => stypeOK_shape _ _ hOK c (by rw [hch]; exact List.mem_append_left _ hc)) hpre hsub hname
+
+/-- **A header nobody claims is refused**: when every section child of the container is a slot whose type neither is
+    the header's type nor lists it as implementer (and no child carries the header's name), `startSection` raises
+    "no matching section defined" -/
+theorem C12_non_implementer_header_refused (st : LS) (ty : Str) (nm : Option Str) (parent : Matcher) (below : List Matcher)
+    (tt : SType) (hs : st.stack = parent :: below)
+    (hg : st.schema.gettype ty = some (.concrete tt)) (hcanon : tt.name = some ty)
+    (hOK : Conf.stypeOK st.schema parent.ty = true)
+    (hnone : ∀ c ∈ parent.ty.children, Conf.claims st.schema ty nm c = false) :
+    lsStart st ty nm = .error (plainErr "no matching section defined") :=
+  lsStart_unclaimed_refused st ty nm parent below tt hs hg hcanon (stypeOK_shape _ _ hOK) hnone
+
+/-- whatever the loader admits, it admitted by looking the type up in, and asking `getsectioninfo` of, the schema the
+    load holds at that line; in particular a header taken by an abstract slot names an implementer recorded THERE -/
+theorem C12_admitted_by_current_schema (st st' : LS) (ty : Str) (nm : Option Str) (h : lsStart st ty nm = .ok st') :
+    ∃ parent below tt ci, st.stack = parent :: below ∧ st.schema.gettype ty = some (.concrete tt) ∧
+      getsectioninfo st.schema parent.ty (tt.name.getD []) nm = .ok ci ∧
+      (tt.name = some ty → isAbstract st.schema ci.ty = true → ty ∈ Conf.implementers st.schema ci.ty) := by
+  obtain ⟨parent, below, tt, ci, hs, hg, hgi, _, _⟩ := lsStart_ok_inv st st' ty nm h
+  refine ⟨parent, below, tt, ci, hs, hg, hgi, ?_⟩
+  intro hcanon ha
+  rw [hcanon] at hgi
+  exact (isSubtype_iff_mem _ _ _).mp
+    (getsectioninfo_abstract_implies_subtype _ _ _ _ _ (isAbstract_concrete _ _ _ hg) hgi ha)
+
+/-! ### extending is not implementing -/
+
+/-- **`isSubtype` is membership in the recorded list** and nothing else: the model of a schema has no `extends`
+    relation at all, so a type that extends an implementer is an implementer only if its own name was recorded -/
+theorem C12_extender_not_implementer (s : Schema) (a ty : Str) :
+    isSubtype s a ty = true ↔ ty ∈ Conf.implementers s a :=
+  isSubtype_iff_mem s a ty
+
+/-- … and the schema loader records a name only on `implements`: a `<sectiontype name=… extends=…>` element WITHOUT an
+    `implements` attribute leaves every abstract type's implementer list as it was (whatever it extends) -/
+theorem C12_extends_registers_nothing (env : Elab.Env) (st st' : Elab.PSt) (attrs : Elab.Attrs)
+    (h : Elab.startSectiontype env st attrs = .ok st') (hni : Elab.attr attrs "implements" = none) (a ty : Str) :
+    isSubtype st'.es.toSchema a ty = isSubtype st.es.toSchema a ty :=
+  Elab.startSectiontype_registers_nothing env st st' attrs h hni a ty
+
+/-- … whereas `implements="i"` does record the new type under `i` -/
+theorem C12_implements_registers (env : Elab.Env) (st st' : Elab.PSt) (attrs : Elab.Attrs) (i : Str)
+    (h : Elab.startSectiontype env st attrs = .ok st') (hi : Elab.attr attrs "implements" = some i) :
+    ∃ nameAttr name ifname, Elab.attr attrs "name" = some nameAttr ∧ Elab.basicKeyE nameAttr = .ok name ∧
+      Elab.basicKeyE i = .ok ifname ∧ isSubtype st'.es.toSchema ifname name = true :=
+  Elab.startSectiontype_registers env st st' attrs i h hi
+
+/-! ### `%import` -/
+
+/-- **`%import` is idempotent.**  A package whose component is already among the schema's components: nothing is read,
+    nothing changes (the load merely owns a private schema from now on) -/
+theorem C12_import_idempotent (st : LS) (pkg url : Str) (types : List (Str × TypeEntry)) (impls : List (Str × Str))
+    (hp : st.pkgs pkg = .component url types impls) (hin : st.schema.components.contains url = true) :
+    lsImport st pkg = .ok { st with privateSchema := true } := by
+  rw [lsImport_component st pkg url types impls hp, hin, if_pos rfl]
+
+/-- importing a package twice in a row: the second `%import` returns the state unchanged -/
+theorem C12_import_twice (st st1 : LS) (pkg : Str) (h : lsImport st pkg = .ok st1) : lsImport st1 pkg = .ok st1 :=
+  lsImport_again st st1 pkg h
+
+/-- … and so does an `%import` of the same package anywhere later in the same load, whatever was read in between
+    (sections, keys, other `%import`s, `%include`d resources with their own `%import`s): the schema, the values read so
+    far and the handlers are untouched -/
+theorem C12_import_again_later (env : Env) (fuel : Nat) (active : List Str) (url : Option Str) (lines : List Str) (n : Nat)
+    (st : LS) (ps0 ps : PS LS) (pkg : Str) (h : lsImport st pkg = .ok ps0.ctx)
+    (hrun : runLines fuel env loaderCtx active url lines n ps0 = .ok ps) :
+    lsImport ps.ctx pkg = .ok { ps.ctx with privateSchema := true } :=
+  lsImport_again_later env fuel active url lines n st ps0 ps pkg h hrun
+
+/-- **An imported implementer is an implementer from then on.**  After a successful `%import` of a component not seen
+    before, every type `c` of the component declared `implements="a"` — `a` an abstract type the schema already had,
+    written in its canonical (lower-case) spelling — is recorded among the implementers of `a` -/
+theorem C12_import_adds_implementers (st st1 : LS) (pkg url : Str) (types : List (Str × TypeEntry))
+    (impls : List (Str × Str)) (hp : st.pkgs pkg = .component url types impls)
+    (hnew : st.schema.components.contains url = false) (himp : lsImport st pkg = .ok st1)
+    (c a : Str) (hmem : (c, a) ∈ impls) (hc : c ∈ types.map (·.1))
+    (hla : lower a = a) (habs : isAbstract st.schema a = true) :
+    isSubtype st1.schema a c = true := by
+  obtain ⟨te, hte, rfl⟩ := List.mem_map.mp hc
+  exact (lsImport_defines_and_registers st st1 pkg url types impls hp hnew himp te.1 a te.2 hmem hte hla habs).1
+
+/-- the same when the abstract type `a` is defined by the component itself, before `c` -/
+theorem C12_import_adds_implementers_of_own_abstract (st st1 : LS) (pkg url : Str) (impls : List (Str × Str))
+    (p1 p2 p3 : List (Str × TypeEntry)) (c a n : Str) (subs : List Str) (e : TypeEntry)
+    (hp : st.pkgs pkg = .component url (p1 ++ (a, .abstract_ n subs) :: (p2 ++ (c, e) :: p3)) impls)
+    (hnew : st.schema.components.contains url = false) (himp : lsImport st pkg = .ok st1)
+    (hmem : (c, a) ∈ impls) (hla : lower a = a) :
+    isSubtype st1.schema a c = true := by
+  obtain ⟨sch, hfold, rfl⟩ := lsImport_ok_new st st1 pkg url _ impls hp hnew himp
+  rw [isSubtype_iff_mem]
+  have hfold' : ((p1 ++ (a, TypeEntry.abstract_ n subs) :: p2) ++ (c, e) :: p3).foldlM (addStep impls)
+      { st.schema with components := st.schema.components ++ [url] } = .ok sch := by
+    rw [List.append_assoc, List.cons_append]; exact hfold
+  refine fold_registers impls c a hla hmem _ p3 e _ sch hfold' ?_
+  intro sc1 h1
+  exact fold_defines_abstract impls a n subs hla p1 p2 _ sc1 h1
+
+/-- the component's concrete types are known types from then on -/
+theorem C12_import_adds_types (st st1 : LS) (pkg url : Str) (types : List (Str × TypeEntry))
+    (impls : List (Str × Str)) (hp : st.pkgs pkg = .component url types impls)
+    (hnew : st.schema.components.contains url = false) (himp : lsImport st pkg = .ok st1)
+    (c : Str) (tc : SType) (hc : (c, .concrete tc) ∈ types) (hlc : lower c = c) :
+    st1.schema.gettype c = some (.concrete tc) := by
+  obtain ⟨sch, hfold, rfl⟩ := lsImport_ok_new st st1 pkg url types impls hp hnew himp
+  obtain ⟨pre, post, rfl⟩ := List.append_of_mem hc
+  exact fold_defines impls c tc hlc pre post _ sch hfold
+
+/-- **… and nothing else is added** to the abstract types the schema had: an implementer recorded after the import was
+    recorded before, or is a type of the component that the component declares as implementing this abstract type.
+    The concrete types the schema had are unchanged, as are its top level and handler. -/
+theorem C12_import_adds_only_declared (st st1 : LS) (pkg url : Str) (types : List (Str × TypeEntry))
+    (impls : List (Str × Str)) (hp : st.pkgs pkg = .component url types impls)
+    (hnew : st.schema.components.contains url = false) (himp : lsImport st pkg = .ok st1) :
+    (∀ a y, isAbstract st.schema a = true → isSubtype st1.schema a y = true →
+        isSubtype st.schema a y = true ∨ (y ∈ types.map (·.1) ∧ (y, lower a) ∈ impls)) ∧
+    (∀ a y, isAbstract st.schema a = true → isSubtype st.schema a y = true → isSubtype st1.schema a y = true) ∧
+    (∀ x t, st.schema.gettype x = some (.concrete t) → st1.schema.gettype x = some (.concrete t)) ∧
+    st1.schema.top = st.schema.top ∧ st1.schema.handler = st.schema.handler := by
+  have hext := lsImport_ext st st1 pkg url types impls hp hnew himp
+  refine ⟨?_, ?_, fun x t h => hext.conc x t h, hext.top, hext.handler⟩
+  · intro a y ha hy
+    rw [isSubtype_iff_mem] at hy
+    rcases hext.only a y ha hy with h | h
+    · exact .inl ((isSubtype_iff_mem _ _ _).mpr h)
+    · exact .inr h
+  · intro a y ha hy
+    rw [isSubtype_iff_mem] at hy ⊢
+    exact hext.mono a y ha hy
+
+/-- **`%import` is refused for names that are not importable packages providing a component**: the four refusal
+    classes give configuration errors (SchemaError for an illegal name, SchemaResourceError for the rest) -/
+theorem C12_import_refused (st : LS) (pkg : Str) :
+    (st.pkgs pkg = .illegalName → ∃ e, lsImport st pkg = .error (.cfg e) ∧ e.kind = .schema) ∧
+    (st.pkgs pkg = .notImportable → ∃ e, lsImport st pkg = .error (.cfg e) ∧ e.kind = .schemaResource) ∧
+    (st.pkgs pkg = .notPackage → ∃ e, lsImport st pkg = .error (.cfg e) ∧ e.kind = .schemaResource) ∧
+    (st.pkgs pkg = .noComponent → ∃ e, lsImport st pkg = .error (.cfg e) ∧ e.kind = .schemaResource) := by
+  refine ⟨?_, ?_, ?_, ?_⟩ <;> intro h <;> unfold lsImport <;> rw [h] <;> exact ⟨_, rfl, rfl⟩
+
+/-- conversely only a package providing a component is imported, and the only other way an `%import` fails is a
+    component that redefines a type: every failure of `%import` is a configuration error -/
+theorem C12_import_refused_iff (st : LS) (pkg : Str) :
+    ((∃ st', lsImport st pkg = .ok st') ∨ (∃ e, lsImport st pkg = .error (.cfg e))) ∧
+    ((∃ st', lsImport st pkg = .ok st') → ∃ url types impls, st.pkgs pkg = .component url types impls) := by
+  cases hp : st.pkgs pkg with
+  | component url types impls =>
+    refine ⟨?_, fun _ => ⟨url, types, impls, rfl⟩⟩
+    rw [lsImport_component st pkg url types impls hp]
+    split
+    · exact .inl ⟨_, rfl⟩
+    · cases hf : types.foldlM (addStep impls) { st.schema with components := st.schema.components ++ [url] } with
+      | ok sch => exact .inl ⟨_, rfl⟩
+      | error f =>
+        right
+        rw [fold_error impls types _ f hf]
+        exact ⟨_, rfl⟩
+  | notImportable => unfold lsImport; rw [hp]; exact ⟨.inr ⟨_, rfl⟩, fun ⟨_, h⟩ => by cases h⟩
+  | notPackage => unfold lsImport; rw [hp]; exact ⟨.inr ⟨_, rfl⟩, fun ⟨_, h⟩ => by cases h⟩
+  | noComponent => unfold lsImport; rw [hp]; exact ⟨.inr ⟨_, rfl⟩, fun ⟨_, h⟩ => by cases h⟩
+  | illegalName => unfold lsImport; rw [hp]; exact ⟨.inr ⟨_, rfl⟩, fun ⟨_, h⟩ => by cases h⟩
+
+/-- a component that defines a type name the load's schema already has is refused (SchemaError) -/
+theorem C12_import_redefinition_refused (st : LS) (pkg url : Str) (types : List (Str × TypeEntry))
+    (impls : List (Str × Str)) (hp : st.pkgs pkg = .component url types impls)
+    (hnew : st.schema.components.contains url = false)
+    (hclash : ∃ te ∈ types, te.1 ∈ st.schema.types.map (·.1)) :
+    lsImport st pkg = .error (.cfg { kind := .schema, tag := "type name cannot be redefined" }) := by
+  rw [lsImport_component st pkg url types impls hp, hnew]
+  simp only [Bool.false_eq_true, if_false]
+  rw [fold_clash_fails impls types { st.schema with components := st.schema.components ++ [url] } hclash]
+  rfl
+
+/-- **An `%import` is visible only from its line onward.**  Take any accepted text `A ++ [l] ++ B` where the part `A`
+    before the header line `l = <ty nm>` has no `%import` line (nor have the resources it can `%include`).  Then the
+    header was judged by the schema the load STARTED with — `ty` is a concrete type of that schema and one of that
+    schema's slots takes it — whatever `%import` lines follow in `B`. -/
+theorem C12_import_visible_only_after (env : Env)
+    (hres : ∀ u ls, env.res u = some ls → ∀ l ∈ ls, NoImportLine l)
+    (fuel : Nat) (active : List Str) (url : Option Str) (A B : List Str) (l : Str) (n : Nat) (st st' : PS LS)
+    (hA : ∀ x ∈ A, NoImportLine x) (ty : Str) (nm : Option Str) (e : Bool)
+    (hs : lineShape (strip l) = .open_ ty nm e)
+    (h : parseLines fuel env loaderCtx active url (A ++ l :: B) n st = .ok st') :
+    ∃ st1 parent below t ci, runLines fuel env loaderCtx active url A n st = .ok st1 ∧
+      st1.ctx.stack = parent :: below ∧ st.ctx.schema.gettype ty = some (.concrete t) ∧
+      getsectioninfo st.ctx.schema parent.ty (t.name.getD []) nm = .ok ci ∧ isAllowedName ci nm = true :=
+  header_before_import env hres fuel active url A B l n st st' hA ty nm e hs h
+
+/-- in particular a type that only a LATER `%import` would provide cannot be used: the text is rejected -/
+theorem C12_use_before_import_rejected (env : Env)
+    (hres : ∀ u ls, env.res u = some ls → ∀ l ∈ ls, NoImportLine l)
+    (fuel : Nat) (active : List Str) (url : Option Str) (A B : List Str) (l : Str) (n : Nat) (st : PS LS)
+    (hA : ∀ x ∈ A, NoImportLine x) (ty : Str) (nm : Option Str) (e : Bool)
+    (hs : lineShape (strip l) = .open_ ty nm e) (hunknown : st.ctx.schema.gettype ty = none) :
+    ∀ st', parseLines fuel env loaderCtx active url (A ++ l :: B) n st ≠ .ok st' := by
+  intro st' h
+  obtain ⟨_, _, _, _, _, _, _, hg, _⟩ := header_before_import env hres fuel active url A B l n st st' hA ty nm e hs h
+  rw [hunknown] at hg
+  cases hg
+
+/-- **… and from its line onward it IS visible.**  Before the `%import` the type `c` is unknown and its header refused;
+    right after a successful `%import` of a component defining `c` with `implements="a"`, the header `<c nm>` is admitted
+    by a `*`/`+` slot of type `a` of the section the loader is in. -/
+theorem C12_imported_implementer_admitted (st st1 : LS) (pkg url : Str) (types : List (Str × TypeEntry))
+    (impls : List (Str × Str)) (hp : st.pkgs pkg = .component url types impls)
+    (hnew : st.schema.components.contains url = false) (himp : lsImport st pkg = .ok st1)
+    (c a : Str) (tc : SType) (hmem : (c, a) ∈ impls) (hc : (c, .concrete tc) ∈ types) (hcanon : tc.name = some c)
+    (hlc : lower c = c) (hla : lower a = a) (habs : isAbstract st.schema a = true)
+    (hunknown : st.schema.gettype c = none)
+    (nm : Option Str) (parent : Matcher) (below : List Matcher) (si : SectInfo) (pre post : List (Option Str × Info))
+    (hs : st.stack = parent :: below) (hb : parent.bag = none)
+    (hOK : Conf.stypeOK st.schema parent.ty = true)
+    (hch : parent.ty.children = pre ++ (none, .sect si) :: post) (hty : si.ty = a)
+    (hpre : ∀ c' ∈ pre, Conf.claims st1.schema c nm c' = false)
+    (hname : isAllowedName si nm = true) (hun : (nm.isSome || allowUnnamed si) = true) :
+    lsStart st c nm = .error (.cfg { kind := .schema, tag := "unknown type name" }) ∧
+    lsStart st1 c nm = .ok { st1 with stack := newMatcher tc nm none :: parent :: below } := by
+  refine ⟨lsStart_unknown_refused st c nm parent below hs hunknown, ?_⟩
+  obtain ⟨hsub, hdef⟩ := lsImport_defines_and_registers st st1 pkg url types impls hp hnew himp c a _ hmem hc hla habs
+  obtain ⟨hstack, _, _, _, _⟩ := lsImport_frame st st1 pkg himp
+  exact lsStart_admitted_unnamed st1 c nm parent below tc si pre post (by rw [hstack, hs]) hb (hdef tc rfl hlc) hcanon hch
+    (fun c' hc' => stypeOK_shape _ _ hOK c' (by rw [hch]; exact List.mem_append_left _ hc')) hpre (by rw [hty]; exact hsub)
+    hname hun
+
+/-- **Counter-fact (known findings C13-implementers-leak / C12-import-leak-accepts).**  "`%import` extends the vocabulary
+    of that load only" does NOT hold for the implementer tables, in the model as in ZConfig: after loading the one-line
+    text `%import p`, the APPLICATION's schema (`schemaAfter`) records the imported type `leak` as an implementer of its
+    abstract type `ab` — which it did not before the load — so a later load against the same schema object would find
+    `ab`'s slot open to a type named `leak`. -/
+theorem C12_import_this_load_only_counterexample :
+    ∃ r, load Ex.conv Ex.env Ex.pkgs Ex.schema none ["%import p".toList] [] = .ok r ∧
+      isSubtype Ex.schema "ab".toList "leak".toList = false ∧
+      isSubtype r.schemaAfter "ab".toList "leak".toList = true := by
+  obtain ⟨r, hr, hs⟩ := Ex.load_import_p
+  exact ⟨r, hr, by decide, by rw [hs]; decide⟩
+
+/-- whole loads, closed: with package `p` providing `leak` (which implements `ab`) and a schema whose top level has a `*`
+    slot of type `ab`, the text `%import p` / `<leak/>` is ACCEPTED and yields the section in the slot's attribute … -/
+theorem C12_example_import_then_use :
+    ∃ r, load Ex.conv Ex.env Ex.pkgs Ex.schema none ["%import p".toList, "<leak/>".toList] [] = .ok r ∧
+      r.value = .sect [] none [("s".toList, .list [.sect "leak".toList none []])] :=
+  Ex.load_import_then_use
+
+/-- … and the same two lines in the other order are REJECTED at line 1: `leak` is not a known type yet -/
+theorem C12_example_use_then_import :
+    load Ex.conv Ex.env Ex.pkgs Ex.schema none ["<leak/>".toList, "%import p".toList] [] =
+      .error (.cfg { kind := .syntax, line := some 1, url := none, tag := "start:unknown type name" }) :=
+  Ex.load_use_then_import
+
+/-! ### closed instances (the hypotheses above are satisfiable; the statements are not vacuous) -/
+
+/-- the example schemas are well-formed -/
+example : Conf.schemaOK Ex.schema = true ∧ Conf.schemaOK Ex.schema' = true ∧ Conf.schemaOK Ex.schema2 = true ∧
+    Conf.schemaOK Ex.schema3 = true := by decide
+
+/-- schema2 = abstract `ab` implemented by `impl`; `ext` extends `impl` without `implements`; the top level has a `*` slot
+    and a slot named `fx`, both of type `ab`.  `<impl>` goes to the `*` slot (instance of
+    `C12_unnamed_slot_admits_implementer`); `<ext>` is claimed by no child and refused. -/
+example : getsectioninfo Ex.schema2 Ex.top2 "impl".toList none = .ok Ex.slot :=
+  C12_unnamed_slot_admits_implementer Ex.schema2 Ex.top2 (by decide) "impl".toList none Ex.slot []
+    [(some "fx".toList, .sect Ex.fixedSlot)] rfl (fun _ h => by cases h) (by decide) (by decide)
+example : getsectioninfo Ex.schema2 Ex.top2 "ext".toList none = .error (plainErr "no matching section defined") :=
+  go_none_claims Ex.schema2 "ext".toList none Ex.top2.children (stypeOK_shape Ex.schema2 Ex.top2 (by decide)) (by decide)
+/-- under the fixed name (schema3: only the `fx` slot; instances of `C12_fixed_name_slot_exact`): `<impl fx>` is admitted
+    and `<ext fx>` refused -/
+example : getsectioninfo Ex.schema3 Ex.top3 "impl".toList (some "fx".toList) = .ok Ex.fixedSlot := by
+  rw [C12_fixed_name_slot_exact Ex.schema3 Ex.top3 (by decide) "impl".toList "fx".toList Ex.fixedSlot [] [] rfl
+    (fun _ h => by cases h) (by decide)]
+  rw [show isSubtype Ex.schema3 Ex.fixedSlot.ty "impl".toList = true by decide, if_pos rfl]
+example : getsectioninfo Ex.schema3 Ex.top3 "ext".toList (some "fx".toList) =
+    .error (plainErr "section type not allowed for name") := by
+  rw [C12_fixed_name_slot_exact Ex.schema3 Ex.top3 (by decide) "ext".toList "fx".toList Ex.fixedSlot [] [] rfl
+    (fun _ h => by cases h) (by decide)]
+  rw [show isSubtype Ex.schema3 Ex.fixedSlot.ty "ext".toList = false by decide]
+  rfl
+/-- `C12_slot_admits_iff` for schema2: `ext` is a known concrete type and no abstract slot takes it -/
+example : ¬ (getsectioninfo Ex.schema2 Ex.schema2.top "ext".toList none = .ok Ex.slot ∧
+    isAbstract Ex.schema2 Ex.slot.ty = true) := by
+  rw [C12_slot_admits_iff Ex.schema2 (by decide) Ex.schema2.top (.inl rfl) "ext".toList Ex.ext rfl none Ex.slot]
+  intro ⟨_, c, _, _, hm⟩
+  revert hm
+  decide
+
+/-- use before / after `%import p` (package `p` provides `leak`, which implements `ab`): refused, then admitted
+    — an instance of `C12_imported_implementer_admitted`, all of whose hypotheses hold here -/
+example : lsStart Ex.st0 "leak".toList none = .error (.cfg { kind := .schema, tag := "unknown type name" }) ∧
+    lsStart Ex.st1 "leak".toList none =
+      .ok { Ex.st1 with stack := newMatcher Ex.leak none none :: newMatcher Ex.top none none :: [] } :=
+  C12_imported_implementer_admitted Ex.st0 Ex.st1 "p".toList "u".toList [("leak".toList, .concrete Ex.leak)]
+    [("leak".toList, "ab".toList)] rfl (by decide) Ex.import_p "leak".toList "ab".toList Ex.leak
+    (List.Mem.head _) (List.Mem.head _) rfl (by decide) (by decide) (by decide) (by decide)
+    none (newMatcher Ex.top none none) [] Ex.slot [] [] rfl rfl (by decide) rfl rfl (fun _ h => by cases h)
+    (by decide) (by decide)
+example : lsImport Ex.st1 "p".toList = .ok Ex.st1 := C12_import_twice Ex.st0 Ex.st1 "p".toList Ex.import_p
+example : isSubtype Ex.st0.schema "ab".toList "leak".toList = false ∧ isSubtype Ex.st1.schema "ab".toList "leak".toList = true := by
+  decide
+/-- `C12_use_before_import_rejected` at work: `<leak/>` on line 1 and `%import p` on line 2 is rejected -/
+example : ∀ st', parseLines 64 Ex.env loaderCtx [] none ["<leak/>".toList, "%import p".toList] 0
+    { ctx := Ex.st0, stack := [], defs := [] } ≠ .ok st' :=
+  C12_use_before_import_rejected Ex.env (fun _ _ h => by cases h) 64 [] none [] ["%import p".toList] "<leak/>".toList 0
+    { ctx := Ex.st0, stack := [], defs := [] } (fun _ h => by cases h) "leak".toList none true
+    (shape_of_classify _ (by decide) (.open_ "leak".toList none true) (by simp) (by decide)) rfl
+/-- the refusal classes -/
+example : (∃ e, lsImport Ex.st0 "bad name".toList = .error (.cfg e) ∧ e.kind = .schema) ∧
+    (∃ e, lsImport Ex.st0 "os".toList = .error (.cfg e) ∧ e.kind = .schemaResource) ∧
+    (∃ e, lsImport Ex.st0 "os.path".toList = .error (.cfg e) ∧ e.kind = .schemaResource) ∧
+    (∃ e, lsImport Ex.st0 "nosuch".toList = .error (.cfg e) ∧ e.kind = .schemaResource) :=
+  ⟨⟨_, rfl, rfl⟩, ⟨_, rfl, rfl⟩, ⟨_, rfl, rfl⟩, ⟨_, rfl, rfl⟩⟩
 
 end ZCV.Props.C12
